@@ -58,9 +58,9 @@ m = {
     "setup_cmd": "./setup.sh",
     "hooks": {
         "guard": "verif",
-        "enable": "none: the checks are static analyses of /repo's working tree; there is no hook or instrumentation commit",
+        "enable": "the checks themselves never build or run /repo (static analyses of the working tree, default build tags). One hook exists for a demonstration only: pkg/protocol/verif_hook_on.go (tag verif) lets demos/F16 hold Session.Read right before it waits; `go test -tags verif -run TestF16 ./pkg/protocol/` after copying the demo in. Without the tag the hook is an empty function (verif_hook_off.go)",
         "baseline_off_cmd": "cd /repo && go test -vet=off -count=1 -timeout 25m ./...",
-        "source_commits": [],
+        "source_commits": ["01fbd70"],
         "add_only": True,
     },
     "engines": [{
